@@ -57,10 +57,19 @@ def to_val(x):
     return x
 
 
+class CallLog(list):
+    """the writer calls of one fold, plus what else was observed on the writing path"""
+
+    def __init__(self):
+        super().__init__()
+        self.meta = {}
+
+
 def setup(ctx, model):
     seeds, intr, calc = physics_seeds(model)
     tensor_seeds(calc)
-    calls = []
+    calls = CallLog()
+    calls_meta = calls.meta
 
     def saver(fn):
         names, _ = positional_params(lib_func("qha/basic_io/out.py", fn))
@@ -94,6 +103,26 @@ def setup(ctx, model):
 
     from ..sym import yaml_kw
     intr.update(fs.intrinsics())
+
+    # tests on the values being written, made by the code that enumerates and writes the files (not by the code computing them):
+    # recorded so that R15.2,5 can report a file whose existence depends on its content
+    value_tests = []
+
+    def value_test(name):
+        def f_(ev, a, k):
+            ref = ev.stack[-1][0] if getattr(ev, "stack", None) else ""
+            if ref.startswith(WR + ":") or ".write_table" in ref or ".write_variables" in ref or ".write_output" in ref or "ModulusInterface." in ref:
+                value_tests.append((name, ref))
+                return False
+            from ..sym import LIB
+            if "numpy." + name not in LIB:
+                raise AnalysisError(f"call to numpy.{name} has no transfer function (T-LIB)")
+            return LIB["numpy." + name](ev, a, k, None, None)
+        f_.kw = None
+        return f_
+    for nm in ("allclose", "isclose", "any", "all", "count_nonzero", "array_equal", "array_equiv", "nonzero", "flatnonzero"):
+        intr["numpy." + nm] = value_test(nm)
+    calls_meta["value_tests"] = value_tests
     intr.update({"qha.v2p.v2p": v2p_intrinsic, "qha.basic_io.out.save_x_tp": saver("save_x_tp"), "qha.basic_io.out.save_x_tv": saver("save_x_tv"),
                  "yaml.safe_load": yaml_load(), "yaml.full_load": yaml_load(), "yaml.load": yaml_load(yaml_kw)})
     ev = Ev(model, seeds, intr, attr_hook=qha_attr_hook, ctx=ctx)
@@ -272,6 +301,9 @@ def r_write(ctx, model):
                 if ref_calls is None:
                     ref_calls = sig
                     problems = check_calls(ev, vol, prs, base_name, r, calls)
+                    tests = sorted({f"numpy.{nm} in {ref.split(':')[-1]}" for nm, ref in calls.meta.get("value_tests", [])})
+                    if tests:
+                        problems.insert(0, f"which files are written is decided by a test on the values ({', '.join(tests)}): a component is available whatever its values")
                     ctx.check(not problems, f"{kw} on {base_name}: files, values, units, labels", w,
                               expected=f"{r['fname_pattern']} with {prop} in {r['unit']}", found="; ".join(problems[:3]) or f"{len(calls)} file(s) as required",
                               explanation=f"output of keyword {kw!r} on the {base_name} interface is wrong: " + "; ".join(problems[:2]), key=f"{kw}.{base_name}")
